@@ -376,3 +376,73 @@ func VerifC06Window(window int) {
 	h.forward([]int{0, 1})
 	verifReach("window-shape-done")
 }
+
+// VerifC06Shift: two sequences whose cells interleave (alternating single-token batches), then a
+// solver-chosen middle removal with position shift on one of them, then both are extended: the
+// shift must re-rope only the removed-from sequence's own later entries.
+func VerifC06Shift(window int, rounds int) {
+	h := vfNew(window, 2, rounds+2, 2)
+	for i := 0; i < rounds; i++ {
+		if verifChoice(2) == 0 {
+			h.forward([]int{0})
+			h.forward([]int{1})
+		} else {
+			h.forward([]int{0, 1})
+		}
+	}
+	s := verifChoice(2)
+	n := int(h.g.maxpos(s) + 1)
+	b := int32(verifChoice(n + 1))
+	e := b + int32(verifChoice(n-int(b)+1))
+	h.remove(s, b, e)
+	h.forward([]int{1 - s})
+	h.forward([]int{s})
+	verifReach("shift-shape-done")
+}
+
+// vfAnyRemove: a solver-chosen removal on sequence s: a suffix trim with symbolic begin, or a middle
+// removal (with position shift) with case-split bounds.
+func (h *vfHarness) vfAnyRemove(s int) {
+	n := int(h.g.maxpos(s) + 1)
+	if n == 0 {
+		return
+	}
+	if verifChoice(2) == 0 {
+		b := verifNondetInt32("trimFrom")
+		verifAssume(b >= 0 && b <= int32(n))
+		h.remove(s, b, math.MaxInt32)
+		return
+	}
+	b := int32(verifChoice(n + 1))
+	e := b + int32(verifChoice(n-int(b)+1))
+	h.remove(s, b, e)
+}
+
+// VerifC06Defrag2: as VerifC06Defrag on 2 x perSeq cells, with arbitrary (suffix or middle) removals, so
+// that holes can lie between live cells of one sequence before the defragmenting batch.
+func VerifC06Defrag2(window int, perSeq int) {
+	h := vfNew(window, 2, perSeq, 2*perSeq)
+	a := make([]int, perSeq)
+	b := make([]int, perSeq)
+	for i := range b {
+		b[i] = 1
+	}
+	h.forward(a)
+	h.forward(b)
+	h.vfAnyRemove(0)
+	h.vfAnyRemove(1)
+	na, nb := verifChoice(perSeq+1), verifChoice(perSeq+1)
+	var seqs []int
+	for i := 0; i < na; i++ {
+		seqs = append(seqs, 0)
+	}
+	for i := 0; i < nb; i++ {
+		seqs = append(seqs, 1)
+	}
+	if len(seqs) > 0 {
+		h.forward(seqs)
+	}
+	h.forward([]int{0})
+	h.forward([]int{1})
+	verifReach("defrag2-shape-done")
+}
